@@ -19,6 +19,15 @@ theorem fetch_id (cfg : Cfg) (want : Nat) (sc : List Resp) :
     cases r with
     | appErr => exact ih s s' sc' j (by simpa [fetch] using h)
     | sendFail => simp [fetch] at h
+    | peer =>
+      unfold fetch at h
+      split at h
+      · exact ih s s' sc' j h
+      · split at h
+        · simp only [Prod.mk.injEq, Option.some.injEq] at h; omega
+        · simp only [Prod.mk.injEq, Option.some.injEq] at h; omega
+        · simp at h
+        · exact ih s s' sc' j h
     | chunk k =>
       unfold fetch at h
       split at h
@@ -76,14 +85,14 @@ with the requested id, which passes the node's chunk verifier. -/
 inductive Serves (cfg : Cfg) (vmin : Nat) : List Nat → List Resp → Prop
   | nil (sc : List Resp) : Serves cfg vmin [] sc
   | cons (want : Nat) (rest : List Nat) (pre post : List Resp) :
-      (∀ r ∈ pre, r ≠ Resp.sendFail ∧ r ≠ Resp.chunk want) →
+      (∀ r ∈ pre, r ≠ Resp.sendFail ∧ r ≠ Resp.chunk want ∧ r ≠ Resp.peer) →
       verifyChunk cfg vmin want = none →
       Serves cfg vmin rest post →
       Serves cfg vmin (want :: rest) (pre ++ Resp.chunk want :: post)
 
 theorem fetch_serves (cfg : Cfg) (want : Nat) (post : List Resp) (pre : List Resp) :
     ∀ (s : Storage), hasPending s want = false → verifyChunk cfg s.vmin want = none →
-      (∀ r ∈ pre, r ≠ Resp.sendFail ∧ r ≠ Resp.chunk want) →
+      (∀ r ∈ pre, r ≠ Resp.sendFail ∧ r ≠ Resp.chunk want ∧ r ≠ Resp.peer) →
       fetch cfg want s (pre ++ Resp.chunk want :: post) = (putVerified cfg s want none, post, some want) := by
   induction pre with
   | nil =>
@@ -93,13 +102,14 @@ theorem fetch_serves (cfg : Cfg) (want : Nat) (post : List Resp) (pre : List Res
   | cons r rest ih =>
     intro s hp hv hpre
     have hr := hpre r (by simp)
-    have hrest : ∀ r ∈ rest, r ≠ Resp.sendFail ∧ r ≠ Resp.chunk want :=
+    have hrest : ∀ r ∈ rest, r ≠ Resp.sendFail ∧ r ≠ Resp.chunk want ∧ r ≠ Resp.peer :=
       fun r' h' => hpre r' (by simp [h'])
     cases r with
     | appErr => simpa [fetch] using ih s hp hv hrest
     | sendFail => exact absurd rfl hr.1
+    | peer => exact absurd rfl hr.2.2
     | chunk k =>
-      have hk : k ≠ want := fun e => hr.2 (by rw [e])
+      have hk : k ≠ want := fun e => hr.2.1 (by rw [e])
       simp only [List.cons_append, fetch, ne_eq, hk, not_false_eq_true, if_true]
       exact ih s hp hv hrest
 
@@ -234,7 +244,7 @@ chunks, chunks with other ids …), then the chunk with the requested id. -/
 inductive ServesShape : List Nat → List Resp → Prop
   | nil (sc : List Resp) : ServesShape [] sc
   | cons (want : Nat) (rest : List Nat) (pre post : List Resp) :
-      (∀ r ∈ pre, r ≠ Resp.sendFail ∧ r ≠ Resp.chunk want) →
+      (∀ r ∈ pre, r ≠ Resp.sendFail ∧ r ≠ Resp.chunk want ∧ r ≠ Resp.peer) →
       ServesShape rest post → ServesShape (want :: rest) (pre ++ Resp.chunk want :: post)
 
 theorem serves_of_shape (cfg : Cfg) (vmin : Nat) (ms : List Nat) (sc : List Resp) (h : ServesShape ms sc)
@@ -285,6 +295,14 @@ theorem fetch_none_of_rejected (cfg : Cfg) (want : Nat) (sc : List Resp) :
     cases r with
     | appErr => simpa [fetch] using ih s hp hv
     | sendFail => simp [fetch]
+    | peer =>
+      cases hvc : verifyChunk cfg s.vmin want with
+      | none => exact absurd hvc hv
+      | some e =>
+        have : verifyRemote cfg s want = (s, .err e) := by
+          simp [verifyRemote, find_none_of_not_pending s want hp, hvc]
+        simp only [fetch, this]
+        split <;> exact ih s hp hv
     | chunk k =>
       by_cases hk : k = want
       · subst hk
@@ -341,6 +359,15 @@ theorem verifyRemote_ignores_rate_limit (cfg : Cfg) (s : Storage) (i : Nat)
     (hp : hasPending s i = false) (hv : verifyChunk cfg s.vmin i = none) :
     verifyRemote cfg s i = (putVerified cfg s i none, .stored) := by
   simp [verifyRemote, find_none_of_not_pending s i hp, hv]
+
+/-- the peer path: a request answered by the peer node's real `GetChunkHandler`, which serves the
+chunk whenever `GetChunkBytes` finds it on the peer (pending *or accepted*, whatever the peer's
+minimum slot), ends the fetch with the requested chunk stored. -/
+theorem fetch_from_serving_peer (cfg : Cfg) (want : Nat) (s : Storage) (post : List Resp)
+    (hp : hasPending s want = false) (hv : verifyChunk cfg s.vmin want = none)
+    (hs : cfg.peerServes want = true) :
+    fetch cfg want s (Resp.peer :: post) = (putVerified cfg s want none, post, some want) := by
+  simp [fetch, hs, verifyRemote, find_none_of_not_pending s want hp, hv]
 
 /-- **C35 (2) at the rate limit** the same conclusion when *every* referenced chunk's producer
 sits at or beyond its pending-weight limit on the accepting node (`CheckRateLimit` would refuse
